@@ -22,6 +22,29 @@ class MapM:
         return None
 
 
+class LockM:
+    """State of one RwLock: which thread holds the write lock, how many read guards each thread holds."""
+
+    def __init__(self):
+        self.writer = None
+        self.readers = {}
+
+    def free(self):
+        return self.writer is None and not any(self.readers.values())
+
+
+class GuardTok:
+    def __init__(self):
+        self.released = False
+
+
+class Blocked(Exception):
+    """raised by lock acquisition when another thread holds the lock (multi-thread exploration)"""
+
+    def __init__(self, lock):
+        self.lock = lock
+
+
 class SetM:
     """HashSet<String>: list of texts; equality is string equality."""
 
@@ -52,10 +75,27 @@ def make_mem_models():
 
     def m_lock(ex, st, args, callee, ty):
         lock = args[0]
+        lk = None
         while isinstance(_obj(ex, st, lock), Adt) and _obj(ex, st, lock).ty in ("Arc", "RwLock"):
-            lock = _obj(ex, st, lock).fields[0]
-        kind = "RwLockWriteGuard" if callee.endswith("::write") else "RwLockReadGuard"
-        return Adt("Result", 0, "Ok", [Adt(kind, None, None, [lock])])
+            o = _obj(ex, st, lock)
+            if o.ty == "RwLock" and len(o.fields) > 1:
+                lk = o.fields[1]
+            lock = o.fields[0]
+        write = callee.endswith("::write")
+        tid = st.meta.get("tid", 0)
+        if lk is not None:
+            mine_r = lk.readers.get(tid, 0)
+            others_r = sum(v for k, v in lk.readers.items() if k != tid)
+            if lk.writer == tid or (write and mine_r > 0):
+                raise Panic("deadlock: thread %s acquires the filesystem lock (%s) while it already holds it" % (tid, "write" if write else "read"))
+            if lk.writer is not None or (write and others_r > 0):
+                raise Blocked(lk)
+            if write:
+                lk.writer = tid
+            else:
+                lk.readers[tid] = mine_r + 1
+        kind = "RwLockWriteGuard" if write else "RwLockReadGuard"
+        return Adt("Result", 0, "Ok", [Adt(kind, None, None, [lock, lk, GuardTok()])])
 
     def m_unwrap(ex, st, args, callee, ty):
         r = args[0]
@@ -70,7 +110,7 @@ def make_mem_models():
         return Adt("Arc", None, None, [BoxRef(args[0])])
 
     def m_rwlock_new(ex, st, args, callee, ty):
-        return Adt("RwLock", None, None, [BoxRef(args[0])])
+        return Adt("RwLock", None, None, [BoxRef(args[0]), LockM()])
 
     # ---- HashMap<PathBuf, V>
     def m_map_new(ex, st, args, callee, ty):
@@ -302,6 +342,27 @@ def make_mem_models():
             raise Unsupported("box_assume_init_into_vec on an unwritten box")
         return VecM(b.content.fields)
 
+    def m_opt_cloned(ex, st, args, callee, ty):
+        from .models import WrapCont
+        o = _obj(ex, st, args[0])
+        if o.variant == 0:
+            return opt_none(ex)
+        r = o.fields[0]
+        v = _obj(ex, st, r)
+        if isinstance(v, Adt) and v.ty in ("MemfsFile", "MemfsEntry"):
+            return CallBack(FnItem("<%s as Clone>::clone" % v.ty), [r if isinstance(r, (Ref, BoxRef)) else BoxRef(r)], WrapCont("Option", 1, "Some"))
+        if isinstance(v, PathBufT):
+            return opt_some(ex, PathBufT(v.chars))
+        return opt_some(ex, v)
+
+    def m_unwrap_or_default(ex, st, args, callee, ty):
+        o = args[0]
+        if o.variant == 1:
+            return o.fields[0]
+        m = re.match(r"^Option::<(.*)>::unwrap_or_default$", callee)
+        tyname = m.group(1).split("::")[-1] if m else ""
+        return CallBack(FnItem("<%s as Default>::default" % tyname), [], Identity())
+
     def m_opt_clone(ex, st, args, callee, ty):
         o = _obj(ex, st, args[0])
         if o.variant == 0:
@@ -405,19 +466,43 @@ def make_mem_models():
         (rx(r"^Box::<\[.*; \d+\]>::new_uninit$"), m_new_uninit),
         (rx(r"^(?:std::boxed::)?box_assume_init_into_vec_unsafe::<.*, \d+>$"), m_into_vec),
         (rx(r"^<Option<(PathBuf|String|u32|u64|usize|bool)> as Clone>::clone$"), m_opt_clone),
+        (rx(r"^Option::<&.*>::cloned$"), m_opt_cloned),
+        (rx(r"^Option::<.*>::unwrap_or_default$"), m_unwrap_or_default),
         (rx(r"^<(String|PathBuf) as Clone>::clone$"), lambda ex, st, args, callee, ty: (PathBufT(text_of(ex, st, args[0])) if "PathBuf" in callee else SStr(sstr_of(ex, st, args[0]).chars))),
     ]
 
 
+def release_guards(ex, st, v, depth=0):
+    """release every lock guard contained in a dropped value"""
+    if isinstance(v, Adt):
+        if v.ty in ("RwLockWriteGuard", "RwLockReadGuard") and len(v.fields) > 1 and isinstance(v.fields[1], LockM):
+            lk, tid = v.fields[1], st.meta.get("tid", 0)
+            tok = v.fields[2] if len(v.fields) > 2 else None
+            if tok is not None:
+                if tok.released:
+                    return
+                tok.released = True
+            if v.ty == "RwLockWriteGuard":
+                if lk.writer == tid:
+                    lk.writer = None
+            else:
+                if lk.readers.get(tid, 0) > 0:
+                    lk.readers[tid] -= 1
+            return
+        if depth < 4 and v.ty in ("MemfsGuard", "Result", "Option", "(tuple)"):
+            for f in v.fields:
+                release_guards(ex, st, f, depth + 1)
+
+
 def memfs_drop_hook(index):
-    """MIR `drop(place)`: run `<MemfsFile as Drop>::drop` (it syncs the handle's buffer into the
-    filesystem) for MemfsFile values, also behind Box<dyn _> and Result/Option wrappers that hold one."""
+    """MIR `drop(place)`: releases lock guards, and runs `<MemfsFile as Drop>::drop` (it syncs the handle's
+    buffer into the filesystem) for MemfsFile values, also behind Box<dyn _> and Result/Option wrappers."""
     def hook(ex, st, place):
-        fr = st.frames[-1]
         try:
             v = ex.read_place(st, place)
         except Unsupported:
             return None
+        release_guards(ex, st, v)
 
         def find(v, depth=0):
             if isinstance(v, Adt) and v.ty == "MemfsFile":
@@ -426,7 +511,7 @@ def memfs_drop_hook(index):
                 return find(v.fields[0], depth + 1)
             return None
         f = find(v)
-        if f is None or getattr(f, "_dropped", False):
+        if f is None:
             return None
         hits = index.by_key.get(("Drop", "MemfsFile", "drop"))
         if not hits:
